@@ -124,7 +124,9 @@ def shard(shard_no, nshards, seed, tier, extra):
     d = common.Driver("rel", shim=True)
     for i in range(n):
         r = rng.random()
-        if r < 0.6:
+        if r < 0.12:
+            code, feats = progs.shared_fault(rng)
+        elif r < 0.6:
             code, feats, _ = progs.controlflow(rng, underflow_p=0.15, symbolic_p=0.2,
                                                big_stack_p=0.02 if rng.random() < 0.3 else 0.0)
         elif r < 0.8:
@@ -167,7 +169,8 @@ def run(tier, seed, t0):
         PROP, tier, seed, res, "exploration",
         "programs mixing JUMP/JUMPI to non-JUMPDEST, out-of-range, in-push-data, >=2^32 and symbolic targets, stack "
         "underflow at 14 different opcodes, stack overflow (1023-1030 pushes), gas limits from 1 to 20000, byte-mutated "
-        "variants; each analysed by the one-call entry point in strict and permissive mode with the same hash seed. "
+        "variants; several paths converging on one faulting JUMP / JUMPI / under-supplied instruction with different "
+        "operands per path; each analysed by the one-call entry point in strict and permissive mode with the same hash seed. "
         "distinct = (bytecode, config); non-trivial = at least one error raised",
         t0, ["an error is 'raised' when an opcode returns it, an opcode stores it, or a thread is retired out of gas "
              "(hook events), or the reference EVM predicts it for a loop-free program",
